@@ -139,9 +139,24 @@ def gen_exact(tier):
         "sw": swatch_specs(),
         "variant": st.sampled_from(VARIANTS),
         # the ground truth may be of a smaller class than the fitted one (diagonal < linear < affine)
-        "truth": st.sampled_from(["same", "same", "smaller"]),
+        # "bigger": the targets are not representable; only the structure of the fitted class is
+        # asserted (white balance stays diagonal, linear balance maps black to black)
+        "truth": st.sampled_from(["same", "same", "same", "smaller", "bigger"]),
         "mseed": st.integers(0, 2**20),
     })
+
+
+def enum_exact(tier):
+    """Every class / shortcut x ground-truth relation x layout, deterministically (the random
+    sub-check above does not hit each of the 72 combinations in the quick tier)."""
+    out = []
+    for k in range(2 if tier == "quick" else 16):
+        for variant in VARIANTS:
+            for truth in ("same", "smaller", "bigger"):
+                for layout, n in (("4x6", 24), ("flat", 6 + 5 * k)):
+                    out.append({"sw": {"layout": layout, "N": n, "pseed": 1000 + k}, "variant": variant,
+                                "truth": truth, "mseed": 77 + k})
+    return out
 
 
 def _variant_mode(variant):
@@ -159,9 +174,14 @@ def check_recovers_exact_map(case):
     tmode = mode
     if case["truth"] == "smaller" and mode != "diagonal":
         tmode = MODES[MODES.index(mode) - 1]
+    bigger = case["truth"] == "bigger" and mode != "affine"
+    if bigger:
+        tmode = MODES[MODES.index(mode) + 1]
     a, b = make_map(rng, tmode)
     dst = ref_apply(src, a, b)
     img = rng.integers(0, 9, size=(3, 4, 3)) / 8.0
+    if bigger:
+        img = np.concatenate((np.eye(3), np.zeros((1, 3))), axis=0)  # unit colours and black
     tags = {"variant": variant, "mode": mode, "truth": tmode, "layout": sw["layout"]}
     head = variant.split("-")[0]
     got_img = None
@@ -177,10 +197,26 @@ def check_recovers_exact_map(case):
         bal = cb.AdaptiveBalance()
         bal.find_balance(src, dst, mode=mode)
         got = np.asarray(bal.apply_balance(src))
+        got_img = np.asarray(bal.apply_balance(img)) if bigger else None
     else:
         bal = PLAIN[mode]()
         bal.find_balance(src, dst)
         got = np.asarray(bal.apply_balance(src))
+        got_img = np.asarray(bal.apply_balance(img)) if bigger else None
+    if bigger:
+        # structure of the class: diagonal balances map each unit colour to a multiple of itself,
+        # diagonal and linear balances map black to black (exact: sums of exact zeros)
+        if got_img.shape != img.shape:
+            raise Violation("shape", f"{variant}: {img.shape} -> {got_img.shape}", tags)
+        if np.any(got_img[3] != 0.0):
+            raise Violation(f"not-in-class:{mode}", f"{variant}: black is mapped to {got_img[3].tolist()} "
+                            f"by a {mode} balance", tags)
+        off = got_img[:3][~np.eye(3, dtype=bool)]
+        if mode == "diagonal" and np.any(off != 0.0):
+            raise Violation("not-in-class:diagonal", f"{variant}: a white balance fitted to non-diagonal "
+                            f"targets mixes channels (off-diagonal {float(np.abs(off).max()):.3e})", tags)
+        return Outcome(True, key=[sw, variant, case["mseed"], tmode, "bigger"],
+                       labels=_sw_labels(sw) + (variant, "truth-bigger"))
     if got.shape != dst.shape:
         raise Violation("shape", f"{variant}: balanced swatches have shape {got.shape}", tags)
     err = float(np.abs(got - dst).max())
@@ -215,7 +251,7 @@ def gen_residual(tier):
         "sw": swatch_specs(),
         "cls": st.sampled_from(["white", "color", "affine", "adaptive"]),
         "modes": st.lists(st.sampled_from(MODES), min_size=1, max_size=3),
-        "start": st.sampled_from(["identity", "prefit", "manual", "optimal"]),
+        "start": st.sampled_from(["identity", "prefit", "manual", "optimal", "optimal"]),
         "dst": st.sampled_from(["exact", "noisy", "generic"]),
         "mseed": st.integers(0, 2**20),
     })
@@ -249,10 +285,18 @@ def check_residual(case):
             bal.balance_scaling = a0
             if mode == "affine":
                 bal.balance_translation = b0
-        elif case["start"] == "optimal" and case["dst"] == "exact":
-            bal.balance_scaling = a.copy()
-            if mode == "affine":
-                bal.balance_translation = b.copy()
+        elif case["start"] in ("optimal", "polished"):
+            # start at the least-squares optimum of the class (closed form): a fit that starts at
+            # the current balance cannot leave it for something worse
+            s2, d2 = src.reshape(-1, 3), dst.reshape(-1, 3)
+            if mode == "diagonal":
+                bal.balance_scaling = np.diag(np.sum(s2 * d2, axis=0) / np.sum(s2 * s2, axis=0))
+            elif mode == "linear":
+                bal.balance_scaling = np.linalg.lstsq(s2, d2, rcond=None)[0]
+            else:
+                sol = np.linalg.lstsq(np.c_[s2, np.ones(len(s2))], d2, rcond=None)[0]
+                bal.balance_scaling = sol[:3].copy()
+                bal.balance_translation = sol[3].copy()
         r0 = residual(bal, src, dst)
         bal.find_balance(src, dst)
         r1 = residual(bal, src, dst)
@@ -484,15 +528,23 @@ PROP = Prop(
     pid="C12",
     rule=_RULE,
     assumptions=[
-        "exact-map recovery asserted to 1e-6 max-abs (single fit) / 2e-6 (staged): Powell at tol=1e-6 "
-        "on these well-conditioned problems was calibrated at <= 3e-8",
+        "exact-map recovery asserted to 1e-6 max-abs (single fit) / 2e-6 (staged); Powell at tol=1e-6 "
+        "reaches <= 2e-10 / 1e-8 on these problems except for rare stalls (~1 in 30 000 fits, up to "
+        "1e-3): a miss is reported only if an independent run of the documented optimiser (scipy "
+        "Powell, tol 1e-6, maxiter 1000, identity start, composed in the row-vector convention) on the "
+        "same problem reaches the tolerance, otherwise the case is counted as skipped",
         "the stage balances of AdaptiveBalance are re-derived by fitting the plain balance class on the "
         "bit-identical pre-balanced swatches (Powell is deterministic)",
-        "residual comparison allows 1e-12 relative slack",
+        "residual comparison allows 1e-12 relative slack; 'optimal' start = closed-form least-squares "
+        "optimum of the class written into balance_scaling / balance_translation",
+        "targets of a bigger class than the fitted one: only the class structure is asserted (white "
+        "balance stays diagonal, diagonal / linear balances map black to black)",
     ],
     subs=[
         Sub("recovers_exact_map", check_recovers_exact_map, gen=gen_exact,
             n={"quick": 480, "thorough": 12000}, shards={"quick": 4, "thorough": 16}),
+        Sub("recovers_exact_map_each_class", check_recovers_exact_map, enum=enum_exact,
+            shards={"quick": 4, "thorough": 16}),
         Sub("residual_never_increases", check_residual, gen=gen_residual,
             n={"quick": 320, "thorough": 8000}, shards={"quick": 4, "thorough": 16}),
         Sub("staged_equals_sequential", check_staged_equals_sequential, gen=gen_staged,
